@@ -52,7 +52,8 @@ package lock
 //@       emits Store.Save(?s) -> _ :: emits Now() -> ?t :: final(Locked(s)) <= t && each Now() -> ?t2 => t2 <= t
 //@
 //@ func (*Lock).AfterAuthSuccess
-//@   property C04
+//@   property C04 C17
+//@   ensures[C17] no_secret_leak: secrets_clean
 //@   ensures success_resets: each Store.Save(?s) -> _ => AttemptCount(s) == 0 && (emits Now() -> ?t :: LastAttempt(s) == t) && Locked(s) == old(Locked(s))
 //@   ensures success_saves: (result.1 == nil) ==> emits Store.Save(_) -> ?e :: e == nil
 //@
@@ -63,14 +64,16 @@ package lock
 //@       (emits Now() -> ?nw :: AttemptCount(s) == step_count(old(AttemptCount(s)), old(LastAttempt(s)), nw, l.Modules.LockWindow))
 //@
 //@ func (*Lock).Unlock
-//@   property C04
+//@   property C04 C17
+//@   ensures[C17] no_secret_leak: secrets_clean
 //@   requires l.Modules.LockWindow >= 0 && l.Modules.LockDuration >= 0
 //@   ensures unlock_clears: each Store.Save(?s) -> _ => AttemptCount(s) == 0 &&
 //@       (emits Now() -> ?n :: Locked(s) <= n && LastAttempt(s) == n - 2 * l.Modules.LockWindow) && PID(s) == key
 //@   ensures unlock_saves: (result == nil) ==> emits Store.Save(_) -> ?e :: e == nil
 //@
 //@ func (*Lock).Lock
-//@   property C04
+//@   property C04 C17
+//@   ensures[C17] no_secret_leak: secrets_clean
 //@   ensures lock_sets: each Store.Save(?s) -> _ => (emits Now() -> ?n :: Locked(s) == n + l.Modules.LockDuration) && PID(s) == key
 //@   ensures lock_saves: (result == nil) ==> emits Store.Save(_) -> ?e :: e == nil
 //@
@@ -82,7 +85,8 @@ package lock
 //@                                  (emits Events.Register("After", EventAuthFail, ?h2) :: fname(h2) == "(*Lock).AfterAuthFail")
 //@
 //@ func Middleware#1#1
-//@   property C03 C18
+//@   property C03 C18 C17
+//@   ensures[C17] no_secret_leak: secrets_clean
 //@   -- the wrapped handler only runs for a user who is not locked at that moment
 //@   ensures[C03] mw_blocks: each Next.ServeHTTP(_, _, _, ?cu) => cu != nil && (before Now() -> ?t :: Locked(cu) <= t)
 //@   ensures[C03] mw_redirects: (!panics && !emits Next.ServeHTTP(_, _, _)) ==> emits Redirect(?ro) :: ro.Code == 307
